@@ -167,7 +167,7 @@ Definition uci_parse (p : position) (s : string) : option move :=
       match promo with
       | None => None
       | Some pr =>
-        let king_from := match Rules.get (brd p) from with Some (_, King) => true | _ => false end in
+        let king_from := match bget (brd p) from with Some (_, King) => true | _ => false end in
         if king_from && (from =? 4)%N && (to =? 6)%N then Some (Castle true)
         else if king_from && (from =? 4)%N && (to =? 2)%N then Some (Castle false)
         else if king_from && (from =? 60)%N && (to =? 62)%N then Some (Castle true)
